@@ -181,6 +181,14 @@ func GenSemantic(r *hx.Rand, module string) *Bundle {
 			}
 		}
 	}
+	// the directory of the generated Go package: the package id, or a different name
+	godirs := map[string]string{}
+	for _, id := range ids {
+		godirs[id] = id
+		if r.Intn(3) == 0 {
+			godirs[id] = "go" + id
+		}
+	}
 	b := &Bundle{}
 	var all []genDef // definitions of the packages generated so far (dependencies first)
 	pkgs := map[string]*Package{}
@@ -191,8 +199,13 @@ func GenSemantic(r *hx.Rand, module string) *Bundle {
 		for _, dep := range imports[id] {
 			im := Import{ID: dep}
 			aliases[dep] = dep
-			if r.Intn(3) == 0 {
+			switch r.Intn(4) {
+			case 0:
 				im.Alias = "al" + dep
+				aliases[dep] = im.Alias
+			case 1:
+				// the alias is the last element of the Go import path (which is not the Go package name)
+				im.Alias = goDir(dep, godirs)
 				aliases[dep] = im.Alias
 			}
 			imps = append(imps, im)
@@ -209,7 +222,7 @@ func GenSemantic(r *hx.Rand, module string) *Bundle {
 		for fi := 0; fi < nfiles; fi++ {
 			f := &File{}
 			if fi == 0 {
-				f.Options = append(f.Options, Option{Name: "go_package", Value: module + "/" + id})
+				f.Options = append(f.Options, Option{Name: "go_package", Value: module + "/" + goDir(id, godirs)})
 			}
 			// every file imports what the package imports and uses each import at least once
 			f.Imports = append(f.Imports, imps...)
@@ -312,6 +325,13 @@ func GenSemantic(r *hx.Rand, module string) *Bundle {
 		b.Packages = append(b.Packages, pkgs[id])
 	}
 	return b
+}
+
+func goDir(id string, godirs map[string]string) string {
+	if d, ok := godirs[id]; ok {
+		return d
+	}
+	return id
 }
 
 func filterPkg(ds []genDef, pkg string) []genDef {
